@@ -11,6 +11,9 @@ use std::io::Cursor;
 pub struct WriteOutcome {
     /// all calls up to and including finalize returned Ok
     pub all_ok: bool,
+    /// a top-level finalize returned Ok and no call failed after the last such finalize: the device holds a finalized file
+    /// although earlier calls may have been rejected (rejections must leave no trace)
+    pub readable: bool,
     pub finalize_called: bool,
     pub panicked: bool,
     /// blobs added directly (offset, length)
@@ -99,7 +102,7 @@ fn image_format(v: &Value) -> ImageFormat {
 
 /// Run the writer part of a program against `dev`. Every API call becomes one trace event.
 pub fn run_writer(prog: &Value, dev: &Dev, t: &mut TraceOut) -> WriteOutcome {
-    let mut out = WriteOutcome { all_ok: true, finalize_called: false, panicked: false, blobs: vec![] };
+    let mut out = WriteOutcome { all_ok: true, readable: false, finalize_called: false, panicked: false, blobs: vec![] };
     let steps = prog["steps"].as_array().cloned().unwrap_or_default();
     let guid = strv(&steps[0]["guid"]);
     let mut call = 0usize;
@@ -128,6 +131,7 @@ pub fn run_writer(prog: &Value, dev: &Dev, t: &mut TraceOut) -> WriteOutcome {
         }
         if !is_ok(res) {
             out.all_ok = false;
+            out.readable = false;
         }
         is_ok(res)
     };
@@ -415,7 +419,9 @@ pub fn run_writer(prog: &Value, dev: &Dev, t: &mut TraceOut) -> WriteOutcome {
                     }));
                     let res = res_unit(r);
                     t.ev(json!({"ev":"w_finalize","custom": true,"res":res}));
-                    note(&res, &mut out);
+                    if note(&res, &mut out) {
+                        out.readable = true;
+                    }
                     continue;
                 }
                 let r = catch(|| match &ins {
@@ -430,7 +436,9 @@ pub fn run_writer(prog: &Value, dev: &Dev, t: &mut TraceOut) -> WriteOutcome {
                 });
                 let res = res_unit(r);
                 t.ev(json!({"ev":"w_finalize","custom": ins.is_some(),"res":res}));
-                note(&res, &mut out);
+                if note(&res, &mut out) {
+                    out.readable = true;
+                }
             }
             other => panic!("harness: unknown step {other}"),
         }
@@ -686,7 +694,7 @@ pub fn run_programs(progs: &str, out: &str) -> std::io::Result<()> {
         }
         let outc = run_writer(&prog, &dev, &mut t);
         dev.set_chunks(vec![]);
-        if !(outc.all_ok && outc.finalize_called) {
+        if !(outc.readable && !outc.panicked) {
             continue;
         }
         let img = dev.snapshot();
